@@ -122,11 +122,25 @@ func exprText(fset *token.FileSet, e ast.Expr) string {
 		for _, a := range x.Args {
 			args = append(args, exprText(fset, a))
 		}
+		if f := exprText(fset, x.Fun); f == "s.accept" && len(args) > 1 {
+			return f + "(" + args[0] + ", …)" // label and debug message are not part of the behaviour
+		}
 		return exprText(fset, x.Fun) + "(" + strings.Join(args, ", ") + ")"
 	case *ast.ParenExpr:
 		return "(" + exprText(fset, x.X) + ")"
 	case *ast.UnaryExpr:
 		return x.Op.String() + exprText(fset, x.X)
+	case *ast.IndexExpr:
+		return exprText(fset, x.X) + "[" + exprText(fset, x.Index) + "]"
+	case *ast.SliceExpr:
+		lo, hi := "", ""
+		if x.Low != nil {
+			lo = exprText(fset, x.Low)
+		}
+		if x.High != nil {
+			hi = exprText(fset, x.High)
+		}
+		return exprText(fset, x.X) + "[" + lo + ":" + hi + "]"
 	}
 	return fmt.Sprintf("<%T>", e)
 }
@@ -370,6 +384,28 @@ func leanList(xs []string) string {
 	return "[" + strings.Join(q, ", ") + "]"
 }
 
+// every loop and branch condition of a function (closures included), in source order
+func condTexts(p *pkgInfo, d *ast.FuncDecl) []string {
+	var out []string
+	if d == nil || d.Body == nil {
+		return out
+	}
+	ast.Inspect(d.Body, func(n ast.Node) bool {
+		switch x := n.(type) {
+		case *ast.ForStmt:
+			c := ""
+			if x.Cond != nil {
+				c = exprText(p.fset, x.Cond)
+			}
+			out = append(out, "for "+c)
+		case *ast.IfStmt:
+			out = append(out, "if "+exprText(p.fset, x.Cond))
+		}
+		return true
+	})
+	return out
+}
+
 func emitCallOrders(p *pkgInfo) string {
 	var b strings.Builder
 	b.WriteString("/- GENERATED by extract from /repo's current source: do not edit. -/\nnamespace Rapid.Generated\n\n")
@@ -382,6 +418,13 @@ func emitCallOrders(p *pkgInfo) string {
 	fmt.Fprintf(&b, "def order_example : List String := %s\n", leanList(stmtTags(p, p.funcs["example"])))
 	fmt.Fprintf(&b, "def order_saveFailFile : List String := %s\n", leanList(osCalls(p, p.funcs["saveFailFile"])))
 	fmt.Fprintf(&b, "def order_checkFuzz : List String := %s\n", leanList(stmtTags(p, p.funcs["checkFuzz"])))
+	for _, fn := range []string{"removeGroups", "minimizeBlocks", "lowerFloatHack", "removeGroupsAndLower", "sortGroups", "removeGroupSpans", "shrink", "accept"} {
+		fmt.Fprintf(&b, "def conds_%s : List String := %s\n", fn, leanList(condTexts(p, p.funcs["shrinker."+fn])))
+	}
+	fmt.Fprintf(&b, "def conds_minimize : List String := %s\n", leanList(condTexts(p, p.funcs["minimize"])))
+	fmt.Fprintf(&b, "def conds_minimizer_accept : List String := %s\n", leanList(condTexts(p, p.funcs["minimizer.accept"])))
+	fmt.Fprintf(&b, "def conds_removeGroup : List String := %s\n", leanList(condTexts(p, p.funcs["recordedBits.removeGroup"])))
+	fmt.Fprintf(&b, "def conds_prune : List String := %s\n", leanList(condTexts(p, p.funcs["recordedBits.prune"])))
 	b.WriteString("\nend Rapid.Generated\n")
 	return b.String()
 }
